@@ -17,6 +17,10 @@ checks = {
    technique="stateless model checking of goroutine interleavings (delay-bounded) of the real store stack + SyncChain with stalled/slow/failing consumers; explicit-state BFS over Append/Flush sequences on the real partial cache",
    text="c12-stall: every schedule with at most K deviations (K reported, 2-3) of {stalled | slow | failing stream consumers, a healthy consumer, a local reader, an appender storing more beacons than all queues hold} on the real callback/append/scheme store stack with the callback queue scaled to 2 must let the appender finish every Put and give the healthy consumer a gap-free sequence. c12-cache: breadth-first search over all Append/store sequences (flooding member, honest member, fresh previous signatures) to depth 8/11 on the real partialCache with the per-member limit scaled to 3, with de-duplication on a canonical form; in every state the cache and its per-member bookkeeping are bounded by members x limit and no partial of the honest member for a round not yet stored has disappeared.",
    note="CallbackWorkerQueue 100->2 and MaxPartialsPerNode 100->3 are rewritten in the instrumented copy only (the code using them is unchanged). A stalled consumer is a Send that never returns. Without fairness the scheduler may starve the healthy stream until it is disconnected as too slow; that outcome is accepted (its delivered prefix is still checked). bbolt's writer-waits-for-open-read-transaction behaviour when the file must grow is outside the exploration (pre-grown files)."),
+ "C18": dict(engine=E2, category="model_checking", design="3/C18",
+   technique="explicit-state breadth-first search over Put/Del histories on the real back-ends with a sorted-map reference model; full read battery after every transition",
+   text="Breadth-first search over all Put/Del histories (depth 5 quick / 7 thorough; rounds {0,1,2,3,5} with a permanent hole, two values per round) on real trimmed bolt, untrimmed bolt and the in-memory ring, each in chained and unchained context, de-duplicated on the reference map (the trimmed-bolt space closes at 78 states); after every transition Get of every round, Last, Len, a full cursor scan, cursor Last and Seek of every round followed by Next are compared with a sorted reference map that encodes only the documented differences. A second family starts from the ring at capacity, a third interleaves one write between the calls of one ring cursor scan.",
+   note="State key = reference map (sound because each back-end's behaviour is a function of its key/value content; reads are nevertheless checked after every transition). PostgreSQL back-end not reachable offline. Reference model lives in harness/cmd/c18/main.go."),
 }
 
 na_default = "check not built yet in this session (work in progress; see DESIGN.md section 3 for the planned model-checking design)"
